@@ -107,7 +107,8 @@ def check(ctx, case, reqs, pend):
                     break
     # the same stack with the worker pool engaged (the cubes turn it on by themselves for large inputs): every block is still
     # the block of the serial evaluation - seeded line-level interleavings of the sub-cube tasks and a real ThreadPool
-    if nsub >= 2 and N > 0:
+    if nsub >= 2 and N > 0 and ctx.dist.get("pooled_stack_cases", 0) < 80:      # bounded: the line-level scheduler is slow
+        ctx.hit("pooled_stack_cases")
         import multiprocessing.pool
         import pool_common as P
         for kind in ("ccube", "xcube"):
